@@ -138,6 +138,14 @@ def _raw(spec):
     elif kind == 'unit_rows':
         a = rng.standard_normal(shape)
         a = a / np.linalg.norm(a, axis=-1, keepdims=True)
+    elif kind == 'basis_rows':
+        # (N, D) complex rows cycling through a random unitary basis
+        N, D = shape
+        Q, _ = np.linalg.qr(_cnormal(rng, (D, D)))
+        a = np.stack([Q[:, n % D] * np.exp(1j * rng.uniform(0, 6.28))
+                      for n in range(N)])
+    elif kind == 'explicit':
+        a = np.asarray(spec['values'], dtype=float).reshape(shape)
     elif kind == 'permfield':
         # (K, F) integer mapping: a permutation of 0..K-1 per column
         K, F = shape
